@@ -6,7 +6,7 @@
   `FSNorm fs` ("every stored method value is upper-cased") holds for every filter set built through the API
   (`reachable_filter_sets_normalised`, `cli_into_spec`).
 -/
-import SV.Proofs.C07
+import SV.Proofs.C07Hist
 
 namespace SV.Props.C07
 open SV.Model.C07 SV.Spec.C07 SV.Proofs.C07
@@ -467,6 +467,116 @@ theorem lazy_partial (rx : Rx) (lz : FilterSet) (doc : Doc) (hl : FSNorm lz) :
     simp [lazyFilterSet, unionFilters, FilterSet.empty]
   rw [this]
   rfl
+
+/-! ## derivation histories: schemas derived from schemas, shared `FilterSet` objects, lazy chains
+
+  `include`/`exclude` of a schema (or lazy schema) build the new object's filters *in place* on a clone of the parent's
+  mutable `FilterSet`.  The theorems below are about every history of such derivations over any number of freshly
+  loaded schemas / `from_fixture` objects (steps: `include`/`exclude` on any object, `clone()`/`parametrize()`,
+  `get_schema`, a command-line run building its `FilterSet` in place): every object that was ever created keeps
+  selecting what its own filters select. -/
+
+/-- After any history, every object's `FilterSet` (its two `set` objects in the heap) holds exactly the immutable value
+    the property assigns to that object: its parent's filters at the time it was derived plus its own call (pooled
+    filters for `get_schema`), irrespective of everything that happened afterwards. -/
+theorem history_refines_values (v : Variant) (n : Nat) (ops : List HOp) :
+    (hrun v (HState.roots n) ops).values = vrun v (List.replicate n FilterSet.empty) ops :=
+  (hrun_refines v ops _ _ (roots_refines n)).vals_eq
+
+/-- … and every step reports exactly the refusal the value semantics prescribes (for the parent's own filters:
+    "already exists" is judged against the parent's filters, never against a sibling's). -/
+theorem history_refusals_agree (v : Variant) (n : Nat) (ops : List HOp) (op : HOp) :
+    (hstep v (hrun v (HState.roots n) ops) op).2 = vstepErr (vrun v (List.replicate n FilterSet.empty) ops) op :=
+  (hstep_refines v _ _ (hrun_refines v ops _ _ (roots_refines n)) op).2.1
+
+/-- Nothing that is done later — deriving from it, deriving from something else, refused calls (including an
+    `exclude(func, deprecated=True)` whose second half is refused), sharing, resolving lazy fixtures — changes an
+    existing object: it is still the `i`-th object and its `FilterSet` denotes the same filters. -/
+theorem derivation_never_changes_existing (v : Variant) (n : Nat) (ops later : List HOp) (i : Nat) (r : FSRef)
+    (h : (hrun v (HState.roots n) ops).objs[i]? = some r) :
+    (hrun v (HState.roots n) (ops ++ later)).objs[i]? = some r ∧
+    denote (hrun v (HState.roots n) (ops ++ later)).heap r = denote (hrun v (HState.roots n) ops).heap r := by
+  have R := hrun_refines v ops _ _ (roots_refines n)
+  obtain ⟨x, t, ht⟩ := hrun_frame v later _ _ R
+  rw [hrun_append]
+  have hb := R.bound r (List.mem_of_getElem? h)
+  refine ⟨?_, denote_ext x r hb.1 hb.2⟩
+  rw [ht, List.getElem?_append_left (by
+    have := List.getElem?_eq_some_iff.1 h
+    obtain ⟨hlt, _⟩ := this
+    exact hlt)]
+  exact h
+
+/-- Hence whatever is observed of an existing schema — the operations offered, the reported counts, the state-machine
+    transitions — is the same before and after any later steps. -/
+theorem later_derivations_do_not_change_offered (v : Variant) (n : Nat) (ops later : List HOp) (i : Nat) (r : FSRef)
+    (h : (hrun v (HState.roots n) ops).objs[i]? = some r) (sv : Variant) (rx : Rx) (doc : Doc) :
+    getAllOperations rx (denote (hrun v (HState.roots n) (ops ++ later)).heap r) doc =
+      getAllOperations rx (denote (hrun v (HState.roots n) ops).heap r) doc ∧
+    measureStatistic sv rx (denote (hrun v (HState.roots n) (ops ++ later)).heap r) doc =
+      measureStatistic sv rx (denote (hrun v (HState.roots n) ops).heap r) doc ∧
+    collectTransitions rx (denote (hrun v (HState.roots n) (ops ++ later)).heap r) doc =
+      collectTransitions rx (denote (hrun v (HState.roots n) ops).heap r) doc := by
+  rw [(derivation_never_changes_existing v n ops later i r h).2]
+  exact ⟨rfl, rfl, rfl⟩
+
+/-- Every object of every history offers exactly the operations the property's selection rule selects for the
+    filters that object stands for (in document order), and its value is in normal form — so all theorems above about
+    filter sets apply to each object at every moment. -/
+theorem history_objects_offer_selected (v : Variant) (n : Nat) (ops : List HOp) (i : Nat) (r : FSRef)
+    (h : (hrun v (HState.roots n) ops).objs[i]? = some r) (rx : Rx) (doc : Doc) :
+    ∃ fs, (vrun v (List.replicate n FilterSet.empty) ops)[i]? = some fs ∧ FSNorm fs ∧
+      getAllOperations rx (denote (hrun v (HState.roots n) ops).heap r) doc = offered rx fs doc := by
+  have R := hrun_refines v ops _ _ (roots_refines n)
+  have hg := refines_get R i
+  rw [h] at hg
+  simp only [Option.map_some] at hg
+  have hn := vrun_norm v ops _ (replicate_empty_norm n) _ (List.mem_of_getElem? hg)
+  exact ⟨_, hg, hn, iteration_agrees rx _ doc hn⟩
+
+/-- `FilterArguments.into` fills a `FilterSet` of its own, in place: no `set` object that existed before is changed,
+    and the object handed to the loaded schema denotes the filter set `cli_into_spec` speaks about (same refusals). -/
+theorem cli_into_in_place (h : Heap) (c : CliArgs) :
+    (∀ a, a < h.next → (cliIntoAt h c).1.cells a = h.cells a) ∧
+    (∀ e, cliInto c = .error e → (cliIntoAt h c).2 = .error e) ∧
+    (∀ fs, cliInto c = .ok fs → ∃ r, (cliIntoAt h c).2 = .ok r ∧ denote (cliIntoAt h c).1 r = fs) := by
+  obtain ⟨x, e, o⟩ := cliIntoAt_spec h c
+  refine ⟨x.same, e, ?_⟩
+  intro fs hfs
+  obtain ⟨r, q1, _, q3⟩ := o fs hfs
+  exact ⟨r, q1, q3⟩
+
+/-- The value semantics only ever appends: an object's filters are fixed when it is created. -/
+theorem history_values_append_only (v : Variant) (vals : List FilterSet) (op : HOp) :
+    ∃ t, vstep v vals op = vals ++ t :=
+  vstep_prefix v vals op
+
+/-- non-vacuity of the history theorems (both variants of `get_schema`): a freshly loaded schema (0) and a
+    `from_fixture` object (1); `public`, `staff = public.include(tag="admin")`, `safe`, a lazy exclusion of deprecated
+    operations resolved against `public`, a clone of `public`, a refused repeat of `include(tag="public")`, and a
+    command-line run (`FilterArguments.into` + assignment).  `public` (object 2) still has its single include filter
+    at the end. -/
+example :
+    (hrun .repaired (HState.roots 2) demoHistory).values =
+      [FilterSet.empty, FilterSet.empty, ⟨[tagFilter "public"], []⟩, ⟨[tagFilter "public", tagFilter "admin"], []⟩,
+       ⟨[], [tagFilter "internal"]⟩, ⟨[], [[.func .isDeprecated]]⟩, ⟨[tagFilter "public"], [[.func .isDeprecated]]⟩,
+       ⟨[tagFilter "public"], []⟩,
+       ⟨[[.value .method (.one "GET".toList)], [.regex .path 0, .regex .tag 1]], [[.func .isDeprecated]]⟩] ∧
+    (hrun .asFound (HState.roots 2) demoHistory).values[6]? = some ⟨[], [[.func .isDeprecated]]⟩ ∧
+    (hstep .repaired (hrun .repaired (HState.roots 2) (demoHistory.take 6)) (.derive 2 ⟨true, false, tagArgs "public"⟩)).2
+      = some .filterExists := by
+  decide
+
+/-- why the copies in `FilterSet.clone` carry the guarantee: the constructor keeps a non-empty set it is given
+    (`arg or set()`), so a `FilterSet` built directly from `public`'s sets shares them, and adding `admin` to it changes
+    what `public` denotes. -/
+example :
+    let s := hrun .repaired (HState.roots 1) [.derive 0 ⟨true, false, tagArgs "public"⟩]
+    let shared := fsInit s.heap 4 5
+    s.objs[1]? = some ⟨4, 5⟩ ∧ denote s.heap ⟨4, 5⟩ = ⟨[tagFilter "public"], []⟩ ∧ shared.2.inc = 4 ∧
+    denote (addFilterAt shared.1 shared.2 true (tagArgs "admin")).1 ⟨4, 5⟩ =
+      ⟨[tagFilter "public", tagFilter "admin"], []⟩ := by
+  decide
 
 /-! ## GraphQL -/
 
